@@ -65,7 +65,18 @@ def r1(cx):
         sl = Q.find_calls(body, SLEEP)
         if ws and sl:
             loops.append((body, ws, sl))
-    cx.floor(len(loops), 2, 'functions that poll wait() and sleep on signals')
+    # the two loops the shell relies on must still sleep between polls (a loop that lost its sleep is a
+    # busy loop, or returns prematurely: reported here, not silently dropped from the inventory)
+    for known in ('yash_env::Env::<S>::wait_for_subshell', 'yash_builtin::wait::core::wait_for_any_job_or_trap'):
+        kb = F.main_body(known)
+        if Q.find_calls(kb, WAIT) and not Q.find_calls(kb, SLEEP):
+            cx.site('%s: polls wait() but never sleeps' % kb.fn)
+            cx.violation(known, 'none-without-sleep', 'the loop polls wait() without sleeping in wait_for_signal(s) when no child '
+                         'has changed state', loc=kb.loc(Q.find_calls(kb, WAIT)[0][1]))
+        elif not Q.find_calls(kb, WAIT):
+            cx.site('%s: does not poll wait() any more' % kb.fn)
+            cx.violation(known, 'no-wait', '%s no longer obtains child statuses from wait()' % known, loc=kb.loc(kb.d))
+    cx.floor(len(loops), 2 if not cx.violations else 0, 'functions that poll wait() and sleep on signals')
     for body, ws, sl in loops:
         cx.fn(body.fn)
         du = Q.DefUse(body)
@@ -322,38 +333,67 @@ def r3(cx):
     if not body.dominates(init[0][0], wb):
         cx.violation(root, 'fold-init', 'the accumulator is not initialised before the wait loop', loc=body.loc(init[0][2]))
     ub = upd[0][0]
+    wd = await_done(F, body, du, wt)
+    cx.require(wd is not None, 'the wait call of the pipeline is not awaited')
     tests = Q.find_calls(body, ['yash_env::semantics::ExitStatus::is_successful'])
-    tests = [(b, t) for b, t in tests if Q.operand_local(t['a'][0]) in status_taint or
-             (du.origin(t['a'][0])['k'] == 'ref' and du.origin(t['a'][0])['pl']['l'] in status_taint)]
-    cx.require(len(tests) == 1, 'is_successful test of the waited status not found')
-    tb, tt = tests[0]
+    cx.require(tests, 'is_successful test of the waited status not found')
+    tt = tests[0][1]
     stop = {wb} | {b for b, t in Q.find_calls(body, [re.compile(r'Iterator>::next$')])} | set(body.return_blocks())
     table = {}
     for succ in (True, False):
         for pf in (True, False):
             env = {'succ': succ, 'pipefail': pf}
-            b = tt['to']
+            known = {}          # local -> bool, along the simulated path
+
+            def val(o):
+                l = Q.operand_local(o)
+                if l is not None and l in known and Q.is_plain(Q.operand_place(o)):
+                    return known[l]
+                if 'c' in o and o.get('ty') == 'bool':
+                    return o['c'] == 'true'
+                return _eval_bool(body, du, o, env)
+            b = wd
             assigned = None
-            for _ in range(200):
+            for _ in range(400):
                 if b == ub:
                     assigned = True
                     break
                 if b in stop:
                     assigned = False
                     break
+                for s_ in body.blocks[b]['s']:
+                    if s_['k'] != 'assign' or not Q.is_plain(s_['lhs']):
+                        continue
+                    rv = s_['rv']
+                    v = None
+                    if rv['k'] == 'use':
+                        v = val(rv['o']) if (rv['o'].get('ty') == 'bool' or Q.operand_local(rv['o']) in known) else None
+                    elif rv['k'] == 'unop' and rv['op'] == 'Not':
+                        v0 = val(rv['o'])
+                        v = None if v0 is None else not v0
+                    if v is None:
+                        known.pop(s_['lhs']['l'], None)
+                    else:
+                        known[s_['lhs']['l']] = v
                 t = body.term(b)
                 if t['k'] == 'switch':
-                    v = _eval_bool(body, du, t['d'], env)
+                    v = val(t['d'])
                     cx.require(v is not None, 'pipefail fold: condition at %s is not decidable' % body.loc(t))
                     nxt = None
-                    for val, tgt in t['ts']:
-                        if bool(val) == v:
+                    for value, tgt in t['ts']:
+                        if bool(value) == v:
                             nxt = tgt
                     b = nxt if nxt is not None else t['else']
-                else:
-                    sc = body.succ(b)
-                    cx.require(len(sc) == 1, 'pipefail fold: unexpected control flow at %s' % body.loc(t))
-                    b = sc[0]
+                    continue
+                if t['k'] == 'call' and Q.is_plain(t['dest']):
+                    v = _eval_call(body, du, t, env)
+                    if v is None:
+                        known.pop(t['dest']['l'], None)
+                    else:
+                        known[t['dest']['l']] = v
+                sc = body.succ(b)
+                cx.require(len(sc) == 1, 'pipefail fold: unexpected control flow at %s' % body.loc(t))
+                b = sc[0]
             cx.require(assigned is not None, 'pipefail fold: evaluation did not terminate')
             table[(succ, pf)] = assigned
             cx.cellcount(1)
